@@ -293,6 +293,10 @@ def corpus():
     c.append(("top", tup(("scope", tup(("h", ("fn", "x", osf))))), ("app", ("var", "h"), DATA), None))
     c.append(("top", tup(("scope", tup(("f", osf)))), ("app", ("var", "f"), DATA), None))
     c.append(("top", tup(("stdlib", tup()), ("scope", tup(("g", ("fn", "x", ("var", "x")))))), ("app", ("var", "g"), std("os")), None))
+    # needs two defective sites together (macro scope + import): attributed to both
+    c.append(("top", tup(("stdlib", tup(("os", tup(("file", osf)))))),
+              ("macro", ("app", std("std", "safe", "eval", "eval"), ("quote", ("imp", "pure")))), None))
+    c.append(("top", tup(("stdlib", tup())), ("macro", ("app", EV_VALUE, ("quote", ("app", ("imp", "lib"), DATA)))), None))
     c.append(("safe", tup(), std("deprecated", "exec"), None))
     c.append(("safe", tup(), std("os"), None))
     c.append(("safe", tup(), ("app", evaluator(tup(("stdlib", tup()))), ("quote", std("str"))), None))
